@@ -65,7 +65,11 @@ def run_impl(case):
         except Exception as e:
             return {'write': ['err', tables.err_code(e)]}
         tree, comp = U.raw_tree(path, mask_date=case.get('writer') == 'convert')
-        rep = spec_decoder.decode(path)
+        try:
+            rep = spec_decoder.decode(path)
+        except Exception as e:      # the decoder must not hide a malformed file behind its own crash
+            rep = {'problems': ['spec decoder could not read the file: %s: %s' % (type(e).__name__, str(e)[:120])],
+                   'csr': None, 'csc': None, 'shape': None, 'nnz': None, 'ids': {}, 'md_entries': {}}
         return {'write': 'ok', 'file': tree,
                 'spec': {'problems': rep['problems'], 'csr': rep['csr'], 'csc': rep['csc']},
                 'seen': {'shape': rep['shape'], 'nnz': rep['nnz'], 'ids': rep['ids'], 'md_entries': rep['md_entries']}}
